@@ -102,7 +102,8 @@ def check_case(case, col=None):
         col.case(case, nt)
 
 
-OPS = ['expect', 'expect', 'expect_exact', 'expect_exact', 'expect_exact', 'expect_list', 'expect_c', 'readline', 'read']
+OPS = ['expect', 'expect', 'expect_exact', 'expect_exact', 'expect_exact', 'expect_list', 'expect_c', 'readline', 'read',
+       'set_sws', 'set_maxread']
 
 
 def body(case, col):
